@@ -623,7 +623,13 @@ def run(ctx):
     res = ctx.tlc("MC_Sexa", mc_cfg(W, stride, "carry", False), name="MC_Sexa", coverage=quick)
     if quick:
         ctx.require_actions(res, ["Format", "Parse"], "MC_Sexa")
-    res2 = ctx.tlc("MC_Sexa", mc_cfg(W, 30 if quick else 5, "round", False), name="MC_Sexa_round_design")
+    doms = {kind: sexa_domain(kind, W, stride) for kind in ("dms", "hms")}
+    if res.distinct != 3 * sum(len(d) for d in doms.values()):
+        raise common.MachineryError("the harness' input domain (%d values) is not MC_Sexa's (%d states / 3)"
+                                    % (sum(len(d) for d in doms.values()), res.distinct))
+    res2 = ctx.tlc("MC_Sexa", mc_cfg(W, 30 if quick else 5, "round", False), name="MC_Sexa_round_design",
+                   coverage=True)
+    ctx.require_actions(res2, ["Format", "Parse"], "MC_Sexa_round_design")
     emit = ctx.tlc("MC_Sexa", mc_cfg(6, 60 if quick else 20, "carry", True), name="MC_Sexa_emit")
     texts = [p for p in emit.printed if "text" in p]
     if len(texts) < 1000:
@@ -634,8 +640,7 @@ def run(ctx):
     jobs = []
     k = 0
     for kind in ("dms", "hms"):
-        dom = sexa_domain(kind, W, stride)
-        for n in dom:
+        for n in doms[kind]:
             k += 1
             jobs.append((kind, n, ARGTYPES[k % 3]))
         lim = MAX_DEC_FINE if kind == "dms" else TURN_FINE - 1
